@@ -824,6 +824,8 @@ class CallMixin:
         if isinstance(recv, VObj) and recv.sort == 'Str':
             if name in STR_BOOL_METHODS:
                 return k(st, self.uf('str_' + name, [recv] + list(args), T_BOOL))
+            if name in ('partition', 'rpartition') and len(args) == 1:
+                return k(st, VTup([self.uf('str_%s_%d' % (name, n), [recv, args[0]], T_STR) for n in range(3)]))
             if name in STR_STR_METHODS:
                 flat = [a for a in args if not isinstance(a, VRef)]
                 if len(flat) != len(args):
